@@ -115,6 +115,10 @@ BaseCases == <<
    vecs |-> {<<1, 0, -1, 2, 0>>}, hyp |-> FALSE, xw |-> {<<"a", "b", "c", "A", "B", "C">>}, xd |-> {<<"a", "b", "c", "A", "B", "C">>}]
 >>
 
+\* thorough tier: the same cases with every word-length bound raised by one
+Deepen(cs) == [cs EXCEPT !.L = @ + 1, !.LD = @ + 1, !.LF = @ + 1]
+DeepCases == [i \in 1..Len(BaseCases) |-> Deepen(BaseCases[i])]
+
 \* Gaussian-integer cases
 Z2 == <<<<0, 0>>, <<0, 0>>>>
 GI == CM(<<<<0, 0>>, <<0, 0>>>>, <<<<1, 0>>, <<0, -1>>>>)       \* diag(i, -i)
